@@ -397,7 +397,7 @@ fn mixed_case(k1: usize, k2: usize, alloc: u8, viol: Option<(usize, i64, usize)>
                 let r = cs.allocate(vals.as_ref().map(|v| v.1[i]))?;
                 cs.constrain(l - av[i]); cs.constrain(r - bv[i]);
                 o
-            } else if alloc >= 1 {
+            } else if alloc >= 1 && alloc <= 2 {
                 let l = cs.allocate(vals.as_ref().map(|v| v.0[i]))?;
                 let r = cs.allocate(vals.as_ref().map(|v| v.1[i]))?;
                 cs.constrain(l - av[i]); cs.constrain(r - bv[i]);
@@ -412,7 +412,19 @@ fn mixed_case(k1: usize, k2: usize, alloc: u8, viol: Option<(usize, i64, usize)>
             let l = cs.allocate(vals.as_ref().map(|_| Fr::from(7u64)))?;
             cs.constrain(l - Fr::from(7u64));
         }
-        if !pv.is_empty() {
+        if alloc == 4 {
+            // one single allocation in each phase: the phase switch must close the half-open gate
+            let l = cs.allocate(vals.as_ref().map(|_| Fr::from(7u64)))?;
+            cs.constrain(l - Fr::from(7u64));
+            let with_val = vals.is_some();
+            cs.specify_randomized_constraints(move |cs| {
+                let _ = cs.challenge_scalar(b"z");
+                let r = cs.allocate(if with_val { Some(Fr::from(9u64)) } else { None })?;
+                cs.constrain(r - Fr::from(9u64));
+                for (p, q) in pv.iter() { cs.multiply((*p).into(), (*q).into()); }
+                Ok(())
+            })?;
+        } else if !pv.is_empty() {
             cs.specify_randomized_constraints(move |cs| { let _ = cs.challenge_scalar(b"z"); for (p, q) in pv.iter() { cs.multiply((*p).into(), (*q).into()); } Ok(()) })?;
         }
         Ok(())
@@ -447,8 +459,8 @@ fn c01(replay: Option<(usize, usize, usize)>) -> (bool, String, String) {
             Ok(Ok(false)) => Some(format!("honest proof of a satisfied circuit rejected: k1={} first-phase gates, k2={} second-phase gates, allocate={}", k1, k2, al)),
             Ok(Ok(true)) => None } };
     if let Some((a, b, c)) = replay { return match run(a, b, c) { Some(m) => (true, format!("[{},{},{}]", a, b, c), m), None => (false, format!("[{},{},{}]", a, b, c), "ok".into()) }; }
-    for k1 in 0..=4 { for k2 in 0..=3 { for al in 0..=3 { if let Some(m) = run(k1, k2, al) { return (true, format!("[{},{},{}]", k1, k2, al), m); } } } }
-    (false, "null".into(), "honest proofs for k1 in 0..4 first-phase x k2 in 0..3 second-phase gates, multiply, allocate-pair, odd-allocate and interleaved-allocate styles".into())
+    for k1 in 0..=4 { for k2 in 0..=3 { for al in 0..=4 { if let Some(m) = run(k1, k2, al) { return (true, format!("[{},{},{}]", k1, k2, al), m); } } } }
+    (false, "null".into(), "honest proofs for k1 in 0..4 first-phase x k2 in 0..3 second-phase gates, multiply, allocate-pair, odd-allocate, interleaved-allocate and allocate-in-both-phases styles".into())
 }
 fn c02(replay: Option<(usize, usize, usize, usize, usize)>) -> (bool, String, String) {
     let run = |k1: usize, k2: usize, i: usize, sg: usize, j: usize| -> Option<String> {
